@@ -503,9 +503,24 @@ func TestC05Handle(t *testing.T) {
 				rt.Skip("no values")
 			}
 			v := proto.Clone(m.Values[0]).(*anypb.Any)
-			if rapid.IntRange(0, 4).Draw(rt, "typeURL") == 0 {
+			if vk := rapid.IntRange(0, 6).Draw(rt, "typeURL"); vk == 0 {
 				v.TypeUrl += "x"
 				how = "type_url"
+			} else if vk <= 2 {
+				// well-formed extra fields the message type does not know, appended or prepended: bytes of
+				// the value changed, so its hash must no longer match what was signed
+				extras := [][]byte{
+					{0xc0, 0x3e, 0x07},                   // field 1000, varint 7
+					{0xca, 0x3e, 0x03, 'x', 'y', 'z'},    // field 1001, bytes "xyz"
+					{0xd5, 0x3e, 0x01, 0x02, 0x03, 0x04}, // field 1002, fixed32
+				}
+				e := extras[rapid.IntRange(0, len(extras)-1).Draw(rt, "unknownField")]
+				if rapid.Bool().Draw(rt, "prepend") {
+					v.Value = append(append([]byte{}, e...), v.Value...)
+				} else {
+					v.Value = append(append([]byte{}, v.Value...), e...)
+				}
+				how = "unknown_field_added"
 			} else {
 				i := rapid.IntRange(0, len(v.Value)-1).Draw(rt, "byte")
 				orig := proto.Clone(v).(*anypb.Any)
@@ -536,7 +551,15 @@ func TestC05Handle(t *testing.T) {
 			}
 			field = "limits"
 		case kind == 15: // duty not allowed / expired
-			if rapid.Bool().Draw(rt, "gateOrExpire") {
+			if rapid.IntRange(0, 3).Draw(rt, "exemptDuty") == 0 {
+				// a duty type that never expires (exit, builder registration): no consensus runs for it and
+				// nothing would ever collect an instance created for it; validly signed, no justifications
+				cl := proto.Clone(m.Msg).(*pbv1.QBFTMsg)
+				cl.Duty.Type = int32(rapid.SampledFrom([]core.DutyType{core.DutyExit, core.DutyBuilderRegistration}).Draw(rt, "exemptType"))
+				m.Msg = resign(cl, keys[cl.PeerIdx])
+				m.Justification = nil
+				how = "never_expiring_duty"
+			} else if rapid.Bool().Draw(rt, "gateOrExpire") {
 				cl := proto.Clone(m.Msg).(*pbv1.QBFTMsg)
 				// beyond the gater window (also far beyond, including values that are negative when read as
 				// signed integers), validly signed, no justifications
